@@ -26,7 +26,7 @@ MAP = {
     "slot_alter": ["alter", "crash"],
     "header_fuzz": ["alter", "crash", "close"],
     "header_layout": ["alter", "crash"],
-    "page_alter": ["alter"],
+    "page_alter": ["alter", "alter_tree"],
 }
 
 _lock = threading.Lock()
